@@ -271,7 +271,7 @@ pub fn property() -> Property {
             Tier::Quick => vec![
                 Step::Enumerate { kind: "las_walks7", count: 5u64.pow(8) },
                 Step::Pbt { kind: "las_random", cases: 3000, max_len: 140 },
-                Step::Pbt { kind: "join", cases: 240, max_len: 64 },
+                Step::Pbt { kind: "join", cases: 640, max_len: 64 },
             ],
             Tier::Thorough => vec![
                 Step::Enumerate { kind: "las_walks9", count: 5u64.pow(10) },
